@@ -171,12 +171,41 @@ theorem afterRegular_srvframe {β} (p : Server → β) (hp : ∀ (srv : Server) 
   rw [forM_notifyWatch_frame (fun s => p s.srv) (fun s g => hp s.srv s.srv.dbs _), Sys.faultS_srv]
   exact hp s.srv _ s.srv.conns
 
-/-- what `_process_command` does with a known, arity-correct regular command on a connection outside MULTI, when no
+/-- the subscriber-mode check of `_run_command` is made on the connection record as the request found it -/
+theorem pre_refuses (s : Sys) (c : Nat) (sig : Sig) : (pre s).refuses c sig = s.refuses c sig := by
+  unfold Sys.refuses
+  rw [pre_conn_proj s c Conn.pubsub (fun _ => rfl)]
+
+/-- what `_process_command` does with a known, arity-correct command — regular, special or script command — on a
+subscribed connection outside MULTI when the command is not on the allow-list, and no exception is pending: prologue,
+the context error; `_run_command` looks neither at the arguments nor at the database. -/
+theorem processCommand_refused (mode : Mode) (c : Nat) (name : Bytes) (args : List Bytes) (s : Sys)
+    {sig : Sig} (hsig : lookupSig name = some sig) (har : sig.checkArity args.length = true)
+    (htx : (s.conn c).tx = none) (hcr : s.crashed = none) (hrf : s.refuses c sig = true) :
+    (processCommand mode c (name :: args)).run s = ((), (pre s).emitS c refusalReply) := by
+  rw [processCommand_cons]
+  simp only [StateT.run, bind, StateT.bind, getConn_run, hsig]
+  rw [dispatch_eq]
+  show dispatchBody mode c (s.conn c) sig args (pre s) = _
+  unfold dispatchBody
+  simp only [har, htx, Bool.not_true, Bool.false_eq_true, if_false, Option.isSome_none, Bool.false_and]
+  simp only [bind, StateT.bind, runCommand_refused mode c sig args false ((pre_refuses s c sig).trans hrf), emit_run,
+    get, getThe, MonadStateOf.get, StateT.get, pure, StateT.pure]
+  have hc : ((pre s).emitS c refusalReply).crashed = none := by
+    have : ∀ (t : Sys) r, (t.emitS c r).crashed = t.crashed := by
+      intro t r; unfold Sys.emitS; split <;> rfl
+    rw [this, pre_crashed, hcr]
+  simp only [hc, Option.isSome_none, Bool.false_eq_true, if_false]
+  rfl
+
+/-- what `_process_command` does with a known, arity-correct regular command on a connection outside MULTI that is not
+refused by the subscriber-mode check (`hps`; the complementary case is `processCommand_refused`), when no
 exception is pending: prologue, the pure runner on the selected database, write-back, watcher notification, reply. -/
 theorem processCommand_regular (mode : Mode) (c : Nat) (name : Bytes) (args : List Bytes) (s : Sys)
     {sig : Sig} {body : Body} (hsig : lookupSig name = some sig) (hb : Cmd.regular sig.name = some body)
     (har : sig.checkArity args.length = true) (hns : scriptNames.contains sig.name = false)
-    (htx : (s.conn c).tx = none) (hcr : s.crashed = none) :
+    (htx : (s.conn c).tx = none) (hcr : s.crashed = none)
+    (hps : (s.conn c).pubsub = 0 ∨ SigTable.pubsubAllowed.contains sig.name = true) :
     (processCommand mode c (name :: args)).run s =
       ((), ((pre s).afterRegular ((pre s).conn c).db ((pre s).regularOut c sig body args false)).emitS c
         ((pre s).regularOut c sig body args false).reply) := by
@@ -188,7 +217,8 @@ theorem processCommand_regular (mode : Mode) (c : Nat) (name : Bytes) (args : Li
   simp only [har, htx, Bool.not_true, Bool.false_eq_true, if_false, Option.isSome_none, Bool.false_and]
   unfold runCommand
   simp only [hns, Bool.false_eq_true, if_false]
-  simp only [bind, StateT.bind, runWith_regular_run _ mode c sig args false hb, emit_run, get, getThe,
+  have hrf : (pre s).refuses c sig = false := (pre_refuses s c sig).trans (Sys.refuses_eq_false.2 hps)
+  simp only [bind, StateT.bind, runWith_regular_run _ mode c sig args false hb (pre s) hrf, emit_run, get, getThe,
     MonadStateOf.get, StateT.get, pure, StateT.pure]
   have hc : ((((pre s).afterRegular ((pre s).conn c).db ((pre s).regularOut c sig body args false)).emitS c
       ((pre s).regularOut c sig body args false).reply)).crashed = none := by
@@ -351,7 +381,7 @@ theorem after_regular (mode : Mode) {s : Sys} {c : Nat} (hr : Ready s c) (name :
   unfold after
   simp only
   rw [sendallGuarded_encode mode c _ s hr.has hr.buf hr.dead hr.paused hr.connected,
-    processCommand_regular mode c name args s hsig hb har hns hr.tx hr.crashed]
+    processCommand_regular mode c name args s hsig hb har hns hr.tx hr.crashed (.inl hr.pubsub)]
   rfl
 
 theorem regState_clocks (s : Sys) (c : Nat) (sig : Sig) (body : Body) (args : List Bytes) :
@@ -1289,7 +1319,8 @@ theorem processCommand_special (mode : Mode) (c : Nat) (name : Bytes) (args : Li
     · have h' : sig.name ∈ SigTable.pubsubAllowed := by simpa using h
       simp [h']
   have hset := setDb_same (pre s) ((pre s).conn c).db
-  simp only [bind, StateT.bind, runWith_special_run _ mode c sig args false (pre s) hreg, hap, hgate, hset]
+  simp only [bind, StateT.bind, runWith_special_run _ mode c sig args false (pre s) hreg
+    (Sys.refuses_of_gate_none hgate), hap, hgate, hset]
   unfold finish
   generalize afterSpecial ((pre s).conn c).db cis (special (runInner mode c) mode c sig.name a cis) (pre s) = r
   obtain ⟨r1, r2⟩ := r
@@ -1492,16 +1523,18 @@ theorem queueStep_regular (mode : Mode) (c : Nat) {fname : String} (fargs : List
         some (runRegular sig body ctx none fargs ⟨t.srv.dbs.getD (t.conn c).db [], t.srv.time⟩).reply ∧
       InnerStep t (queueStep (runInner mode c) c (fname, fargs) t).2 c
         (runRegular sig body ctx none fargs ⟨t.srv.dbs.getD (t.conn c).db [], t.srv.time⟩) := by
+  have hconn1 : (t.updConn c fun x => { x with inTx := true }).conn c = { t.conn c with inTx := true } :=
+    Sys.conn_updConn_same (fun x => { x with inTx := true }) hc (fun _ => rfl)
+  have hrf : (t.updConn c fun x => { x with inTx := true }).refuses c sig = false :=
+    Sys.refuses_of_unsubscribed sig (by rw [hconn1]; exact hps)
   have hrun : queueStep (runInner mode c) c (fname, fargs) t =
       (some ((t.updConn c fun x => { x with inTx := true }).regularOut c sig body fargs false).reply,
         ((t.updConn c fun x => { x with inTx := true }).afterRegular ((t.updConn c fun x => { x with inTx := true }).conn c).db
           ((t.updConn c fun x => { x with inTx := true }).regularOut c sig body fargs false)).updConn c
             fun x => { x with inTx := false }) := by
     unfold queueStep runInner
-    simp only [hfind, bind, StateT.bind, modifyConn_run, runWith_regular_run _ mode c sig fargs false hb, pure,
+    simp only [hfind, bind, StateT.bind, modifyConn_run, runWith_regular_run _ mode c sig fargs false hb _ hrf, pure,
       StateT.pure]
-  have hconn1 : (t.updConn c fun x => { x with inTx := true }).conn c = { t.conn c with inTx := true } :=
-    Sys.conn_updConn_same (fun x => { x with inTx := true }) hc (fun _ => rfl)
   refine ⟨FR.Ttl.ctxOf (t.updConn c fun x => { x with inTx := true }) c, rfl, ?_, ?_⟩
   · rw [hrun]
     simp only
